@@ -295,7 +295,9 @@ def selfcheck():
           'bcast': [], 'default': 0.0, 'dtype': 'float64'}
     d = dense_of(s2)
     assert d.shape == (7, 6) and d[1, 0] == 1. and d[6, 5] == 6. and d[0].sum() == 0
-    # agreement with the library's own to_dense on these two (O2 vs to_dense on documented examples)
-    import torch
-    for s in (s1, s2):
-        assert torch.equal(build_pt(s).to_dense(), dense_torch(s))
+    # (agreement of the library's to_dense with this interpreter is asserted per generated input inside the
+    # checks, as a violation, never here: the self-check must not depend on the code under test)
+    s3 = {'paxes': [2], 'vaxes': [{'p': 0}, {'sum': [1, {'prod': [{'p': 0}, {'p': 0}]}, 0]}], 'phys': [5., 6.],
+          'bcast': [], 'default': -1.0, 'dtype': 'float64'}
+    d = dense_of(s3)
+    assert d.shape == (2, 5) and d[0, 1] == 5. and d[1, 4] == 6. and (d == -1).sum() == 8
